@@ -83,6 +83,8 @@ func nodeExpr(t *Term) string {
 		fmt.Fprintf(&sb, "((_ fp.to_sbv %d) RTZ", t.A)
 	case OFpOfBits:
 		fmt.Fprintf(&sb, "((_ to_fp %s)", fpSortArgs(t.Sort.W))
+	case OFpRTI:
+		fmt.Fprintf(&sb, "(fp.roundToIntegral %s", rmNames[t.A])
 	default:
 		n, ok := opNames[t.Op]
 		if !ok {
@@ -323,6 +325,9 @@ func eval(t *Term, m Model, memo map[int]wide) wide {
 		r.lo = uint64(int64(x)) & mask(w)
 	case OFpOfBits:
 		r = arg(0)
+	case OFpRTI:
+		c := &Term{Op: OConst, Sort: t.Args[0].Sort, Val: arg(0).lo}
+		r.lo = FpRoundToIntegral(c, t.A).Val
 	default:
 		panic(fmt.Sprintf("eval: unsupported op %d", t.Op))
 	}
